@@ -32,8 +32,32 @@ from graphtage.bounds import Range, Infinity  # noqa: E402
 from graphtage.edits import ConstantCostEdit  # noqa: E402
 from graphtage.tree import CompoundEdit  # noqa: E402
 
-DEFAULT_PRINTER = gtree.DEFAULT_PRINTER          # the one shared object tree.py / levenshtein.py / json.py hold
-assert glev.DEFAULT_PRINTER is DEFAULT_PRINTER and gjson.DEFAULT_PRINTER is DEFAULT_PRINTER
+class _SharedPrinters:
+    """The process-wide default printer object(s).  On the pinned tree tree.py, levenshtein.py and json.py each hold
+    their own import-time binding of ONE shared object; a refactoring may legitimately change that, so the simulator
+    flips `.quiet` on every distinct object reachable as `<module>.DEFAULT_PRINTER` instead of assuming one."""
+
+    def objects(self):
+        seen, out = set(), []
+        for mod in (gtree, glev, gjson, gprinter):
+            p = getattr(mod, "DEFAULT_PRINTER", None)
+            if p is not None and id(p) not in seen and hasattr(p, "quiet"):
+                seen.add(id(p))
+                out.append(p)
+        return out
+
+    @property
+    def quiet(self):
+        objs = self.objects()
+        return bool(objs and objs[0].quiet)
+
+    @quiet.setter
+    def quiet(self, flag):
+        for p in self.objects():
+            p.quiet = bool(flag)
+
+
+DEFAULT_PRINTER = _SharedPrinters()
 
 OPS = ["B", "T", "C", "V", "N", "E", "K", "R", "D", "X", "Q", "Z", "F"]
 
@@ -597,7 +621,7 @@ class Session:
             self.t_since_b[a.idx] = n
             if n >= 2 and isinstance(e, CompoundEdit):
                 self.bump("probe.compound_tightened_twice_without_bounds_read")
-            if isinstance(e, glev.EditDistance) and e.edit_matrix is None:
+            if getattr(e, "edit_matrix", 0) is None:
                 self.bump("probe.tighten_after_cleanup")
             if isinstance(e, CompoundEdit):
                 self.bump("compound_T")
